@@ -45,6 +45,7 @@ def run_one(case, r, seed, encoding="utf-8", variant="main"):
     sigs = gamma.build_sigmap(case, keys, Pb, Qb, r, nonascii=nonascii, surrogates=surrogates)
     env = {"signatures": sigs, "signed": P}
     auth = gamma.auth_list(case["auth"], keys, r, dups=True)
+    gamma.prime_related(case, keys, sigs, Q)
     out, exc, printed = lib.call(auth_mod.verify_signable, env, auth, case["thr"], gpg=case["gpg"], encoding=encoding)
     return {"variant": variant, "encoding": encoding, "observed": out, "exc": exc, "allowed": case["allowed"],
             "concrete": {"envelope": env, "authorized": auth, "threshold": case["thr"], "gpg": case["gpg"]},
